@@ -223,6 +223,8 @@ class FieldView:
         self.default = f.default if f.has_default else None
         self.required = not self.nullable and not self.has_default
         self.via_alias = type(f.data_type).__name__ == 'Alias'
+        # the spec writes such defaults as text; the IR keeps the text, the runtime wants bytes / datetime
+        self.text_default = self.has_default and type(unalias(f.data_type)).__name__ in ('Bytes', 'Timestamp')
         self.alias_of_nullable = self.via_alias and self.nullable
 
 
@@ -248,6 +250,7 @@ class RouteView:
             'void' if isinstance(arg, Void) else 'other'
         self.arg_ref = ref_of(arg) if self.kind in ('struct', 'union') else None
         self.result_void = isinstance(unalias(r.result_data_type), Void)
+        self.error_has_fields = isinstance(unalias(r.error_data_type), (Struct, Union, Void))
         self.fields = []
         if self.kind == 'struct':
             for c in chain(arg):
@@ -305,9 +308,20 @@ class RouteView:
             out.append('field-type-alias-of-nullable')
         return out
 
-    def cause(self):
+    def cause(self, exception=None, omitted=()):
+        """the explanation that fits the symptom (exception class of a failing call, parameters the call left out)"""
         cs = self.causes()
-        return cs[0] if cs else 'unexplained'
+        if exception == 'ValidationError':
+            if any(f.text_default and f.name in omitted for f in self.fields):
+                return 'text-default-of-bytes-or-timestamp-field'
+            return 'field-type-alias-of-nullable' if 'field-type-alias-of-nullable' in cs else 'unexplained'
+        if exception == 'NameError':
+            return 'route-namespace-without-data-types' if 'route-namespace-without-data-types' in cs else 'unexplained'
+        if exception in ('AttributeError', 'UnboundLocalError'):
+            return 'parameter-hides-module-name' if 'parameter-hides-module-name' in cs else 'unexplained'
+        if exception is None and 'field-type-alias-of-nullable' in cs:
+            return 'field-type-alias-of-nullable'
+        return 'unexplained'
 
 
 def route_views(api):
@@ -391,7 +405,7 @@ class Session:
 
 
 def _short(e):
-    s = str(e)
+    s = getattr(e, 'traceback', None) or str(e)      # stone.compiler.BackendException keeps the inner traceback text
     last = s.strip().splitlines()[-1] if s.strip() else ''
     return ('%s: %s' % (type(e).__name__, last))[:300]
 
@@ -466,6 +480,11 @@ def judge_module(ses):
             return problems                      # a route with another argument kind: the backend refuses, not judged
         if kind == 'nameConflict':
             return problems                      # the backend refuses loudly: not judged
+        if "has no attribute 'fields'" in (ses.error or '') and not all(v.error_has_fields for v in ses.views):
+            # docstring generation reads `error_data_type.fields`: a route whose ERROR type is a primitive / list / map /
+            # nullable crashes the backend. The property and its quantifier say nothing about error types: recorded, not judged.
+            ses.ck.stat('module.not_judged.error_type_without_fields_crashes_docstring_generation')
+            return problems
         problems.append(('python_client crashes on a spec whose routes all have struct / union / Void arguments',
                          {'kind': 'client-generation-crash', 'error': (ses.error or '').split(':')[0]},
                          {'error': ses.error}))
@@ -546,6 +565,10 @@ def suite_module(ck, sessions):
         key = ('module', ses.label)
         ck.case(key)
         # generation outcome
+        if ses.status == 'client-gen-fails' and "has no attribute 'fields'" in (ses.error or '') and \
+                not all(v.error_has_fields for v in ses.views):
+            ck.stat('generation.not_compared.error_type_without_fields')
+            continue
         if 'gen_error' in rep or ses.status == 'client-gen-fails':
             real = gen_error_kind(ses) if ses.status == 'client-gen-fails' else 'generated'
             model = rep['gen_error'][0] if 'gen_error' in rep else 'generated'
@@ -769,12 +792,14 @@ def bind_expected(ses, v, pos, kw):
 
 def judge_call(ses, v, call, res):
     """The property on one call of the method of route view v. -> [(what, signature, detail)]"""
-    cause = v.cause()
     if res[0] == 'value-build-fails':
         return []
     if res[0] == 'raises':
+        given = set(n for n, _r in v.expected_params()[:len(res[3])]) | set(res[4])
+        omitted = [n for n, _r in v.expected_params() if n not in given]
         return [('calling the method of a route with valid arguments raises instead of issuing the request',
-                 {'kind': 'call-raises', 'exception': res[1], 'cause': cause}, {'error': res[2]})]
+                 {'kind': 'call-raises', 'exception': res[1], 'cause': v.cause(res[1], omitted)}, {'error': res[2]})]
+    cause = v.cause(None)
     o, pos, kw = res[1], res[2], res[3]
     bad = []
 
@@ -808,7 +833,13 @@ def judge_call(ses, v, call, res):
             fail('argument-class', {'expected': type(want).__name__, 'real': type(arg).__name__})
         else:
             a, b = slots_of(ses, arg, v.arg_ir), slots_of(ses, want, v.arg_ir)
-            if a != b or not (arg == want):
+            try:
+                eq = arg == want
+            except AttributeError:
+                # generated __eq__ reads every field through its property; python_types takes a field whose type is an
+                # alias of a nullable type for required, so an unset one raises (C09's subject): field-wise comparison only
+                eq = True
+            if a != b or not eq:
                 diff = sorted(k for k in set(a) | set(b) if k not in a or k not in b or a[k] != b[k])
                 fail('argument-fields', {'differing_fields': diff, 'expected': repr(want), 'real': repr(arg)})
     if v.upload:
@@ -1040,7 +1071,21 @@ def adapt_model(model, rng):
         cfg.files = []
         route_schema = [cfg.defs[-1]]
     schema = route_schema[0]
-    schema.fields = [f for f in schema.fields if f.name != 'style'] + [sg.Field('style', sg.TypeRef('String'), default='rpc')]
+    # STEER: a union-typed route attribute makes python_types print `TagRef(...)` into the module (NameError on
+    # import, C09's subject): keep primitive attributes only
+    def _prim_attr(f):
+        t = f.type
+        while t is not None:
+            d = sg.find_def(model, t.ns or 'stone_cfg', t.name)
+            if d is None:
+                return t.name in sg.PRIMITIVES and t.name not in ('Timestamp', 'Bytes')
+            if d.kind != 'alias':
+                return False
+            t = d.type
+        return False
+    dropped = {f.name for f in schema.fields if not _prim_attr(f)}
+    schema.fields = [f for f in schema.fields if f.name != 'style' and f.name not in dropped] + \
+        [sg.Field('style', sg.TypeRef('String'), default='rpc')]
     for ns in model.namespaces:
         for d in ns.defs:
             if getattr(d, 'kind', None) != 'route':
@@ -1056,7 +1101,12 @@ def adapt_model(model, rng):
                     d.arg = sg.TypeRef(x.name, None if src == ns.name else src)
                 else:
                     d.arg = sg.TypeRef('Void')
+            if resolves_to(ns.name, d.error) == 'other':
+                # STEER: python_client's docstring generation crashes on an error type without `.fields`
+                d.error = sg.TypeRef('Void')
             d.attrs.pop('style', None)
+            for k in dropped:
+                d.attrs.pop(k, None)
             s = rng.choice(['upload', 'download', 'upload', 'download', 'rpc', None, None])
             if s is not None:
                 d.attrs['style'] = s
